@@ -2,6 +2,7 @@
 # Which engine-level checks catch which seeded changes: applies every seeded patch that touches the protocol engine to /repo
 # in turn and runs the quick tier of all engine-level checks (no regression corpus); writes seeded/MATRIX.txt.
 cd /verif || exit 2
+trap 'git -C /repo checkout -q -- .; rm -rf /tmp/vr_mx; exit 3' TERM INT
 checks=(C01 C04 C05 C06 C07 C08 C09 C10 C11 C14 C15 C17 C18)
 out=seeded/MATRIX.txt
 printf "%-6s" seed > $out; for c in "${checks[@]}"; do printf " %-5s" $c >> $out; done; echo >> $out
